@@ -58,8 +58,8 @@ def _analyse_sibling(chk, r1, r2, r3, f: FuncInfo, br) -> Dict[str, object]:
                f"{f.qualname}: low-coverage days must be blanked by selecting coverage > 0.5 and reindexing onto the full daily index (value -> temperature_mean)")
     # ---- R09.3 (b) hourly route
     hourly = [c for c in calls_in(f.node) if unparse(c.func) == "compute_temperature_features"]
-    ok = len(hourly) == 1 and (pc.has(f"_TF_ = compute_temperature_features({MI}, _TS_, data_quality=True)", bind=False)
-                               or pc.has(f"_TF_ = compute_temperature_features(meter_data_index={MI}, temperature_data=_TS_, data_quality=True)", bind=False))
+    ok = len(hourly) == 1 and (pc.has(f"_HR_ = compute_temperature_features({MI}, _TS_, data_quality=True)", bind=False)
+                               or pc.has(f"_HR_ = compute_temperature_features(meter_data_index={MI}, temperature_data=_TS_, data_quality=True)", bind=False))
     r3.require(ok, f"{f.key}|hourly-route", f.where(), f"{f.qualname}: hourly feeds must be grouped onto the meter days by compute_temperature_features(meter_index, temp_series, data_quality=True)")
     frac_ok = pc.has("_INV_ = _TF_.temperature_not_null / (_TF_.temperature_not_null + _TF_.temperature_null) <= 0.5") or \
         pc.has("_INV_ = _TF_['temperature_not_null'] / (_TF_['temperature_not_null'] + _TF_['temperature_null']) <= 0.5")
@@ -137,17 +137,16 @@ def run(chk):
     r4.require(sd == sb, "siblings|daily~billing _compute_temperature_features", b.where(), f"the two implementations differ in their coverage masks: {sd} vs {sb}")
     # hourly-route aggregator table in features.compute_temperature_features
     ctf = chk.repo.func(FEAT, "compute_temperature_features")
-    cp = PatCtx(ctf.node)
-    r3.require(cp.has("_AGG_.extend([('not_null', 'count'), ('null', lambda x: x.isnull().sum())])"), f"{ctf.key}|count-aggregators", ctf.where(), "present readings must be counted with `count`, absent ones with isnull().sum()")
-    r3.require(cp.has("_REN_.update({('temp', 'not_null'): 'temperature_not_null', ('temp', 'null'): 'temperature_null'})") or
-               cp.has("_REN_.update({('temp', 'null'): 'temperature_null', ('temp', 'not_null'): 'temperature_not_null'})"), f"{ctf.key}|count-renames", ctf.where(),
-               "the count columns must be renamed to temperature_not_null / temperature_null (not swapped)")
-    r3.require(cp.has("_AGG_.extend([('mean', 'mean')])", bind=False) and cp.has("_REN_.update({('temp', 'mean'): 'temperature_mean'})", bind=False), f"{ctf.key}|mean-aggregator", ctf.where(),
-               "the day's temperature must be aggregated with mean and named temperature_mean")
-    MIDX, TDATA = ctf.params[0], ctf.params[1]
-    r3.require(cp.has(f"_AGGD_ = _matching_groups({MIDX}, {TDATA}.to_frame('temp'), tolerance).agg({{'temp': _AGG_}})"), f"{ctf.key}|grouped-onto-meter-index", ctf.where(),
-               "readings must be grouped onto the meter index (merge_asof groups of the raw readings, column `temp`) before aggregating with the collected aggregators")
-    r3.require(cp.has("_DF_ = pd.concat([__, _AGGD_], axis=1).rename(columns=_REN_)"), f"{ctf.key}|renames-applied", ctf.where(), "the aggregated columns must be renamed through the collected rename table")
-    ok = cp.has("_H_ = _H_.assign(n_hours_dropped=_H_.temperature_mean.isnull().astype(int), n_hours_kept=_H_.temperature_mean.notnull().astype(int))") and \
-        cp.has("_H_ = _H_.assign(temperature_null=_H_.n_hours_dropped, temperature_not_null=_H_.n_hours_kept)", bind=False)
-    r3.require(ok, f"{ctf.key}|hourly-fast-route-counts", ctf.where(), "hourly fast route: null / not-null flags must feed temperature_null / temperature_not_null respectively")
+    # interpreted on recording frames (rules/tempfeat_absint.py): which aggregate of which grouping comes out under which name
+    from rules.tempfeat_absint import interpret, judge
+    obligations = ("count-aggregators", "count-renames", "mean-aggregator", "grouped-onto-meter-index", "renames-applied", "hourly-fast-route-counts", "rows", "shape")
+    found = {}
+    n_paths = 0
+    for freq in ("D", None, "h"):
+        for trace, o in interpret(chk, ctf, freq):
+            n_paths += 1
+            for ob, msg in judge(trace, o, freq):
+                found.setdefault(ob, f"meter index frequency {freq}: {msg}" + (f" (when {[t for t, v in trace if v]})" if any(v for t, v in trace) else ""))
+    for ob in obligations:
+        r3.require(ob not in found, f"{ctf.key}|{ob}", ctf.where(), f"compute_temperature_features(meter_index, temperatures, data_quality=True): {found.get(ob, '')}",
+                   sample={"obligation": ob, "paths": n_paths})
